@@ -40,7 +40,7 @@ META = {
     "assumptions": ["str(ndarray) is truncated beyond numpy's print threshold", "repr() of operators is not injective (checked: Projection.__repr__ has sizes only)"],
     "technique": "def-use key-completeness analysis over the class hierarchy",
 }
-MIN_INSTANCES = {"R1": 14, "R2": 8, "R3": 3, "R4": 12, "R5": 3}
+MIN_INSTANCES = {"R1": 14, "R2": 8, "R3": 4, "R4": 12, "R5": 3, "R6": 2}
 
 # attribute of class determined by other attributes (which must then be in the key)
 DERIVED = {
@@ -318,6 +318,30 @@ def run(ctx: Ctx) -> None:
                   f"composite evaluation reads `op.{a}` but Operator._key does not: operators differing only in `{a}` have equal keys "
                   f"(e.g. exp(p) and log(p))", construct=f"Operator._key omits {a}", facts={"key_reads": sorted(comp_reads)})
 
+    # R3b: the composite key must encode the tree unambiguously.  Accepted: prefix form (operation first, then the
+    # child keys in order, arity is fixed per operation) or any form that brackets each composite.  An infix join of the
+    # child keys without brackets loses the nesting: (a-b)-c and a-(b-c) collide.
+    from ..core.astutil import inline_locals
+    kasg = [st for st in walk_local(okey) if isinstance(st, ast.Assign) and any(u(t) == "self._cached_key" for t in st.targets)]
+    if len(kasg) != 1:
+        raise Undecided("Operator._key: expected one assignment to self._cached_key")
+    kexpr = inline_locals(okey, kasg[0].value, stop=["self"])
+    joins = [c_ for c_ in ast.walk(kexpr) if isinstance(c_, ast.Call) and isinstance(c_.func, ast.Attribute) and c_.func.attr == "join"]
+    has_brackets = any(isinstance(c_, ast.Constant) and isinstance(c_.value, str) and "(" in c_.value and ")" in u(kexpr) for c_ in ast.walk(kexpr))
+    if joins:
+        sep = joins[0].func.value
+        sep_has_op = any(isinstance(n_, ast.Attribute) and n_.attr in ("operation", "value") and "operation" in u(n_) for n_ in ast.walk(sep))
+        arg = joins[0].args[0] if joins[0].args else None
+        prefix = (isinstance(sep, ast.Constant) and isinstance(arg, ast.BinOp) and isinstance(arg.op, ast.Add)
+                  and "operation" in u(arg.left) and "children" in u(arg.right))
+        ok = prefix or has_brackets or not sep_has_op
+        ctx.check("R3", ok, ops, "Operator._key", kasg[0],
+                  "composite key joins the child keys with the operation as an infix separator and without brackets: the nesting of "
+                  "the tree is lost ((a-b)-c and a-(b-c) get the same key)", construct="Operator._key: unambiguous tree encoding",
+                  facts={"key_expression": u(kexpr)[:200], "prefix_form": prefix, "brackets": has_brackets})
+    else:
+        raise Undecided("Operator._key: key is not built with str.join")
+
     # ---------------- R4 interpolation types --------------------------------------------------
     mat = ctx.repo.module(MATOPS)
     slicer_cls = mat.cls("ArraySlicer")
@@ -341,6 +365,40 @@ def run(ctx: Ctx) -> None:
             ctx.check("R4", bad is None, mod, f"{cname}._key", fv, bad or "interpolation is a scalar / id list / digest",
                       construct=f"{cname}._key interpolates {u(e)}")
 
+    # ---------------- R6 mutators of key data must invalidate the cached key ----------------------
+    n6 = 0
+    seen6 = set()
+    for rel, cname in LEAF_CLASSES:
+        mod, cls = H.classes[cname]
+        kf = H.lookup(cname, "_key")
+        if kf is None or kf[0] == "Operator":
+            continue
+        kreads = set()
+        for a in key_flow_reads(kf[1]):
+            kreads |= H.expand(cname, a)
+        caches = any(isinstance(n_, ast.Attribute) and n_.attr == "_cached_key" and isinstance(n_.ctx, ast.Store) for n_ in ast.walk(kf[1]))
+        if not caches:
+            continue
+        for c in H.mro(cname):
+            cmod, ccls = H.classes[c]
+            for mname, fn in methods(ccls).items():
+                if mname in ("__init__", "_key", "_initialize_children") or (c, mname) in seen6:
+                    continue
+                stores = [st for st in walk_local(fn) if isinstance(st, (ast.Assign, ast.AugAssign)) and any(
+                    isinstance(t, ast.Attribute) and isinstance(t.value, ast.Name) and t.value.id == "self" and t.attr in kreads
+                    for t in assigned_targets(st))]
+                if not stores:
+                    continue
+                seen6.add((c, mname))
+                n6 += 1
+                resets = any(isinstance(st, ast.Assign) and any(u(t) == "self._cached_key" for t in st.targets) for st in walk_local(fn))
+                attrs = sorted({t.attr for st in stores for t in assigned_targets(st) if isinstance(t, ast.Attribute)})
+                ctx.check("R6", resets, cmod, f"{c}.{mname}", stores[0],
+                          f"{mname} changes {attrs}, which the key of {cname} depends on, but does not reset `_cached_key`: after the key was "
+                          f"computed once the operator keeps reporting the old key", construct=f"{c}.{mname}: key data changed without resetting _cached_key")
+    if n6 == 0:
+        raise AnchorError("no mutator of key data found (Scalar.set_value / Operator.set_name expected)")
+
     # ---------------- R5 copies must not inherit the cached key ---------------------------------
     sites = [("TimeDependentOperator.previous_timestep", ops.func("TimeDependentOperator.previous_timestep")),
              ("IterativeOperator.previous_iteration", ops.func("IterativeOperator.previous_iteration")),
@@ -363,6 +421,8 @@ def _m(name, old, new, rule, file=OPS, control=False, count=1):
 
 
 MUTANTS = [
+    _m("seed-composite-key-infix", "            tmp = [self.operation.value] + [child._key() for child in self.children]\n            self._cached_key = \" \".join(tmp)",
+       "            tmp = [child._key() for child in self.children]\n            self._cached_key = f\" {self.operation.value} \".join(tmp)", "R3"),
     _m("revert-fix-domain-size", 's += f", domain_size={self._slicer.domain_size}"', 's += f", domain_size={self._slicer.domain_indices}"', "R2", control=True),
     _m("drop-range-size", '            s += f", range_size={self._slicer.range_size}"\n', "", "R2"),
     _m("drop-transposed", '            if self._slicer._is_transposed:\n                s += ", transposed"\n', "", "R2"),
